@@ -284,6 +284,53 @@ class BufM:
         return self.len_
 
 
+class ByteBuf:
+    """a large byte buffer (vec![0u8; N]) as an ordered list of segments [length term, source]; source = ('zero',) |
+    ('file', chunk index, offset term) — bytes [offset, offset+length) of what the chunk-th read delivered"""
+    def __init__(self, n):
+        self.n = n
+        self.segs = [[BitVecVal(n, 64), ('zero',)]]
+
+    def overwrite_prefix(self, ctx, k, src_chunk):
+        """bytes [0, k) := the chunk's bytes; the rest keeps what it held (k <= n assumed by the caller)"""
+        rest = []
+        skipped = BitVecVal(0, 64)          # bytes of the old content already covered
+        for ln, src in self.segs:
+            end = z3.simplify(skipped + ln)
+            if ctx.decide(z3.ULE(end, k)):
+                pass                        # wholly overwritten
+            elif ctx.decide(z3.ULE(k, skipped)):
+                rest.append([ln, src])      # wholly kept
+            else:
+                cut = z3.simplify(k - skipped)      # overwritten part of this segment
+                if src[0] == 'file':
+                    rest.append([z3.simplify(ln - cut), ('file', src[1], z3.simplify(src[2] + cut))])
+                else:
+                    rest.append([z3.simplify(ln - cut), src])
+            skipped = end
+        self.segs = [[k, ('file', src_chunk, BitVecVal(0, 64))]] + rest
+
+    def view(self, ctx, hi):
+        """segments of bytes [0, hi)"""
+        out = []
+        skipped = BitVecVal(0, 64)
+        for ln, src in self.segs:
+            end = z3.simplify(skipped + ln)
+            if ctx.decide(z3.ULE(end, hi)):
+                out.append([ln, src])
+            elif ctx.decide(z3.ULE(hi, skipped)):
+                break
+            else:
+                out.append([z3.simplify(hi - skipped), src]); break
+            skipped = end
+        return out
+
+
+class ByteView:
+    def __init__(self, segs):
+        self.segs = segs
+
+
 def reader_models():
     out = []
 
@@ -320,10 +367,75 @@ def reader_models():
     def buf_is_empty(ctx, args, callee):
         return ctx.deref(args[0]).len_ == 0
 
+    @reg(r'^(std|alloc)::vec::from_elem$', 'vec![0u8; N] with a large N: an abstract byte buffer')
+    def from_elem(ctx, args, callee):
+        n = conc(args[1])
+        if n is None or n <= 64 or not z3.is_bv(args[0]) or conc(args[0]) != 0:
+            from mirsym.models_std import m_vec_from_elem
+            return m_vec_from_elem(ctx, args, callee)
+        return ByteBuf(n)
+
+    @reg(r'^<Vec<u8> as (std::ops::)?Deref(Mut)?>::deref(_mut)?$', 'Vec<u8> deref')
+    def vec_deref(ctx, args, callee):
+        v = ctx.deref(args[0])
+        if isinstance(v, ByteBuf):
+            return args[0]
+        from mirsym.models_std import MODELS
+        for pat, f, name in MODELS:
+            if pat.search('<Vec<u8> as Deref>::deref'):
+                return f(ctx, args, callee)
+        raise Unmodelled('Vec<u8> deref')
+
+    @reg(r'^<Vec<u8> as (std::ops::)?Index(Mut)?<(std::ops::)?Range(To|Full)(<usize>)?>>::index(_mut)?$', 'slice of the abstract byte buffer')
+    def vec_slice(ctx, args, callee):
+        v = ctx.deref(args[0])
+        if not isinstance(v, ByteBuf):
+            raise Unmodelled('byte slice of %r' % (v,))
+        if 'RangeFull' in callee:
+            return args[0]
+        hi = args[1].f[0]
+        ctx.obligation(z3.ULE(hi, BitVecVal(v.n, 64)), 'range end index out of range for slice')
+        return Ref(Cell(ByteView(v.view(ctx, hi))))
+
+    @reg(r'^<(std::fs::)?File as (std::io::)?Read>::read$|^<BufReader<File> as (std::io::)?Read>::read$', 'io:Read::read into the abstract byte buffer: the next chunk (<= buffer length), 0 at EOF, or Err')
+    def file_read(ctx, args, callee):
+        f = ctx.deref(args[0]); b = ctx.deref(args[1])
+        if not isinstance(b, ByteBuf):
+            raise Unmodelled('read into %r' % (b,))
+        ctx.ghost['read_attempted'] = True
+        if ctx.ghost.get('read_fails') is not None and ctx.decide(ctx.ghost['read_fails'][min(f.pos, len(ctx.ghost['read_fails']) - 1)]):
+            return err(IoError('read failed'))
+        if f.pos >= len(f.chunks):
+            return ok(BitVecVal(0, 64))
+        ln, nl = f.chunks[f.pos]
+        ctx.assume(z3.ULE(ln, BitVecVal(b.n, 64)))
+        b.overwrite_prefix(ctx, ln, f.pos)
+        f.consumed.append((f.pos, ln))
+        f.pos += 1
+        return ok(ln)
+
     @reg(r'^bytecount::count$', 'bytecount::count (the chunk\'s newline count; uninterpreted)')
     def bytecount(ctx, args, callee):
         b = ctx.deref(args[0])
         needle = conc(args[1])
+        if isinstance(b, (ByteBuf, ByteView)):
+            if needle != 10:
+                ctx.ghost['wrong_needle'] = needle
+                return ctx.fresh_bv('count_of_other_byte', 64)
+            f = ctx.ghost['file']
+            total = BitVecVal(0, 64)
+            for ln, src in b.segs:
+                if src[0] == 'zero':
+                    continue
+                clen, cnl = f.chunks[src[1]]
+                whole = And(src[2] == 0, ln == clen)
+                if ctx.check(Not(whole)) == z3.unsat:
+                    total = total + cnl                         # exactly one delivered chunk
+                else:
+                    part = ctx.fresh_bv('newlines_in_part_of_chunk%d' % src[1], 64)      # any count the bytes allow
+                    ctx.assume(z3.ULE(part, ln))
+                    total = total + part
+            return z3.simplify(total)
         if needle != 10:
             ctx.ghost['wrong_needle'] = needle
             return ctx.fresh_bv('count_of_other_byte', 64)
@@ -487,11 +599,20 @@ def digest_models():
     @reg(r'^(std::)?io::copy$', 'io::copy(file, hasher): the hasher absorbs the whole file, or Err')
     def io_copy(ctx, args, callee):
         f = ctx.deref(args[0]); h = ctx.deref(args[1])
+        ctx.ghost['used_copy'] = True
         if ctx.decide(ctx.ghost['copy_fails']):
             h.absorbed.append(('prefix', f))
             return err(IoError('read failed'))
         h.absorbed.append(('all', f))
         return ok(ctx.fresh_bv('copied', 64))
+
+    @reg(r'^<.* as (digest::)?(Digest|Update)>::update$', 'digest:Digest::update(bytes): the hasher absorbs exactly those bytes')
+    def d_update(ctx, args, callee):
+        h = ctx.deref(args[0]); b = ctx.deref(args[1])
+        if isinstance(b, (ByteBuf, ByteView)):
+            h.absorbed.append(('segs', [list(x) for x in b.segs]))
+            return UNIT
+        raise Unmodelled('Digest::update with %r' % (b,))
 
     @reg(r'^<.* as (digest::)?Digest>::finalize$', 'digest:Digest::finalize')
     def d_fin(ctx, args, callee):
@@ -533,20 +654,42 @@ def fam_digests(sess):
 
         def run(ctx):
             ctx.ghost['open_fails'] = ctx.fresh_bool('open_fails'); ctx.ghost['copy_fails'] = ctx.fresh_bool('copy_fails')
-            ctx.ghost['file'] = FileM([])
+            chunks = []
+            for i in range(2):       # consulted only by an implementation that reads the file itself (read loop + update)
+                ln = ctx.fresh_bv('len%d' % i, 64); nl = ctx.fresh_bv('nl%d' % i, 64)
+                ctx.assume(And(ln != 0, ULT(ln, BitVecVal(1 << 40, 64)), z3.ULE(nl, ln)))
+                chunks.append((ln, nl))
+            ctx.ghost['read_fails'] = [ctx.fresh_bool('read_fails%d' % i) for i in range(3)]
+            ctx.ghost['file'] = FileM(chunks)
             return ctx.call_fn(fn, [Ref(Cell(EntryM(None)))])
 
         def on_path(ctx, out, fname=fname, alg=alg):
             if out[0] != 'ret':
                 box['bad'] = True; sess.inconclusive(fname, str(out), fam); return
             r = out[1]
-            fails = ctx.check(Not(Or(ctx.ghost['open_fails'], ctx.ghost['copy_fails']))) == z3.unsat
+            f = ctx.ghost['file']
+            used_read = bool(f.pos or f.consumed or ctx.ghost.get('read_attempted'))
+            anyfail = Or([ctx.ghost['open_fails']] + ([ctx.ghost['copy_fails']] if ctx.ghost.get('used_copy') or not used_read else []) + (ctx.ghost['read_fails'] if used_read else []))
+            fails = ctx.check(Not(anyfail)) == z3.unsat
             if fails:
                 good = isinstance(r, Str) and not isinstance(r, SpecialStr) and r.s == ''
                 what = 'a file that cannot be read must give an empty digest column'
             else:
-                good = (isinstance(r, TokenStr) and r.kind == 'hex' and isinstance(r.arg, DigestM) and r.arg.alg == alg
-                        and len(r.arg.absorbed) == 1 and r.arg.absorbed[0][0] == 'all' and r.arg.absorbed[0][1] is ctx.ghost['file'])
+                good = isinstance(r, TokenStr) and r.kind == 'hex' and isinstance(r.arg, DigestM) and r.arg.alg == alg
+                if good:
+                    ab = r.arg.absorbed
+                    if len(ab) == 1 and ab[0][0] == 'all':
+                        good = ab[0][1] is f
+                    elif ctx.check(anyfail) != z3.unsat and ctx.check(Not(anyfail)) != z3.unsat:
+                        good = True      # a path on which the outcome still depends on undecided failures: judged on its siblings
+                    else:
+                        # read loop: the updates must be exactly the delivered chunks, whole and in order, up to EOF
+                        segs = [sg for a in ab if a[0] == 'segs' for sg in a[1]]
+                        good = all(a[0] == 'segs' for a in ab) and f.pos == len(f.chunks) and len(segs) == len(f.chunks)
+                        for j, (ln, src) in enumerate(segs):
+                            if not good:
+                                break
+                            good = src[0] == 'file' and src[1] == j and ctx.check(Not(And(src[2] == 0, ln == f.chunks[j][0]))) == z3.unsat
                 what = 'the column is not the lower-case hex %s of the whole file (got %r%s)' % (alg, r, ' of ' + r.arg.alg if isinstance(r, TokenStr) and isinstance(r.arg, DigestM) else '')
             if not good and not box.get('viol'):
                 box['viol'] = True
